@@ -115,6 +115,14 @@ static Wire c13(Reader& r) {
     case 64:{ SymMatrix A=getSym(r); ll x=r.z(); return pure1(Vector(0),[&]{ A*=(double)x; return outSym(A); }); }
     case 65:{ Matrix M=getDense(r); return pure1(M,[&]{ return outSym(SymMatrix(M)); }); }
     case 66:{ SymMatrix S=getSym(r); U a=getU(r),b=getU(r),c=getU(r),d=getU(r); return pure1(S,[&]{ return outDense(S(a,b,c,d)); }); }
+    case 70:{ // copy semantics: A; B=A (copy constructor, shares the buffer); C(A,DEEP_COPY); write cell k of who; views of A,B,C
+        Vector d=getVec(r); size_t who=r.n(), k=r.n(); ll x=r.z(); size_t kind=d.size()%3; Wire o{ST_OK,(ll)d.size()};
+        auto run=[&](auto& A,auto& B,auto& C) { double* t=(who==0)?A.data():(who==1)?C.data():B.data(); if (k<d.size()) t[k]=(double)x;
+            for (auto* p:{A.data(),B.data(),C.data()}) for (size_t q=0;q<d.size();++q) o.push_back(exact(p[q])); };
+        if (kind==0 || d.size()==0) { Vector A(d,DEEP_COPY); Vector B(A); Vector C(A,DEEP_COPY); run(A,B,C); }
+        else if (kind==1) { Matrix A(d,(unsigned)d.size(),1); Matrix B(A); Matrix C(A,DEEP_COPY); run(A,B,C); }
+        else { Matrix A0(d,1,(unsigned)d.size()); Matrix A(A0,DEEP_COPY); Matrix B=A; Matrix C(A,DEEP_COPY); run(A,B,C); }
+        return o; }
     }
     return Wire{-1};
 }
